@@ -175,6 +175,41 @@ func reportBackgrounds() []struct {
 	}
 }
 
+// reportScoreText builds the report of the object's own level and returns the score field of the
+// given level (reached through the embedded reports).
+func reportScoreText(o any, lv int) (txt string, ok bool) {
+	defer func() {
+		if recover() != nil {
+			ok = false
+		}
+	}()
+	var base *report.BaseReport
+	var temp *report.TemporalReport
+	var env *report.EnvironmentalReport
+	switch x := o.(type) {
+	case *v3.Base:
+		base = report.NewBase(x)
+	case *v3.Temporal:
+		temp = report.NewTemporal(x)
+		base = temp.BaseReport
+	case *v3.Environmental:
+		env = report.NewEnvironmental(x)
+		temp = env.TemporalReport
+		base = temp.BaseReport
+	default:
+		return "", false
+	}
+	switch {
+	case lv == 0 && base != nil:
+		return base.BaseScore, true
+	case lv == 1 && temp != nil:
+		return temp.TemporalScore, true
+	case lv == 2 && env != nil:
+		return env.EnvironmentalScore, true
+	}
+	return "", false
+}
+
 // checkFullReport compares all three nested reports of an environmental report.
 func checkFullReport(r *ev.Run, cs map[string]any, rep *report.EnvironmentalReport, verLabel string, tok map[string]string, lc langCase) {
 	if rep == nil || rep.TemporalReport == nil || rep.TemporalReport.BaseReport == nil {
@@ -338,6 +373,13 @@ func init() {
 		}
 		var n, nv int64
 		// single-threaded sequences first: they must not be disturbed by the parallel sweep below
+		r.Phase("first report of a fresh process", func() {
+			var fe [][]string
+			for _, l := range []string{"fr", "und", "de", "ja", "en", "zh-Hans", "en-US"} {
+				fe = append(fe, []string{"report", l})
+			}
+			firstUse(r, fe)
+		})
 		r.Phase("language orders", func() { languageOrders(r, langs, &n) })
 		r.Phase("reports after field assignment", func() { reportsAfterAssignment(r, langs[:3], &n) })
 		for bi, bg := range reportBackgrounds() {
